@@ -217,6 +217,24 @@ harnesses_inner! {
         let _ = sub.len();
         must_not_return!("C03.oob.owned_range_returned_a_slice");
     }
+    fn c03_q_owned_head3_dna [10] {
+        // an owned sequence whose bit vector does not start at bit 0 of its buffer
+        // (only constructible through From<BitVec>): positional reads still follow the symbols
+        let w = any_words::<2>();
+        let bits = bitvec::array::BitArray::<[usize; 2], bitvec::order::Lsb0>::new(w);
+        let bv: Bv = bitvec::vec::BitVec::from_bitslice(&bits[3..43]);
+        let s: Seq<Dna> = Seq::from(bv);
+        assert!(s.len() == 20, "C03.owned.len");
+        let (a, b) = (any_usize(), any_usize());
+        assume(a <= b && b <= 20);
+        let sub = &s[a..b];
+        assert!(sub.len() == b - a, "C03.slice.len");
+        let i = any_usize();
+        assume(i < b - a);
+        assert!(sub.nth(i).to_bits() == crate::oracle::bits_at(&w, 3 + 2 * (a + i), 2) as u8, "C03.nth.symbol_with_nonzero_head");
+        reach!(a > 0 && i > 0, "offset");
+        core::mem::forget(s);
+    }
     fn c03_q_kmer_deref_dna_k32 [10] {
         let v = any_usize();
         let k = kmer::<Dna, 32>(v);
@@ -255,5 +273,5 @@ table!(
     c03_t_mdna_oob_range_xp c03_t_mdna_oob_index_xp c03_t_mdna_oob_incl_xp c03_t_mdna_oob_open_xp
     c03_q_text_range c03_t_text_incl c03_t_text_to c03_t_text_toincl c03_t_text_from c03_t_text_full c03_t_text_nest3
     c03_t_text_oob_range_xp c03_t_text_oob_index_xp c03_t_text_oob_incl_xp c03_t_text_oob_open_xp
-    c03_q_owned_dna_range c03_q_owned_amino_oob_xp c03_q_kmer_deref_dna_k32 c03_q_kmer_deref_amino_k10
+    c03_q_owned_dna_range c03_q_owned_head3_dna c03_q_owned_amino_oob_xp c03_q_kmer_deref_dna_k32 c03_q_kmer_deref_amino_k10
 );
